@@ -30,7 +30,8 @@ EXPLANATION = (
     'command can continue normally (CannotSimulate excepted, by design); '
     'R-C12.8 the optimiser that runs before the simulation only registers '
     'ChangeField mutations as absorbable and invalidates consumed entries, so '
-    'it cannot fold away a duplicate AddField before it is rejected.')
+    'it cannot fold away a duplicate AddField before it is rejected; '
+    'R-C12.9 can_simulate becomes False only as a constructor default, in a CannotSimulate handler or by propagation from a mutator (the gate returns early when it is False).')
 NOT_DECIDED = (
     'That every perturbed evolution is in fact rejected (quantifies over '
     'evolutions and needs the diff/simulate semantics executed).')
@@ -612,7 +613,69 @@ def r8_optimiser_keeps_invalid_mutations(ctx):
     r6_consumed_entries_invalidated(ctx, rule_id='R-C12.8')
 
 
+def r9_cannot_simulate_only_for_raw_sql(ctx):
+    """The gate lets an upgrade through without comparing signatures when
+    evolver.can_simulate() is false.  That escape exists for mutations that
+    raise CannotSimulate (raw SQL).  can_simulate may therefore only become
+    False (a) as the constructor default of a task that is not prepared yet,
+    (b) in a handler of CannotSimulate, or (c) by propagating another
+    object's can_simulate.  Any other `can_simulate = False` switches the
+    residual-difference rejection off for the whole run."""
+    ctx.rule('R-C12.9')
+    p = ctx.program
+    n = 0
+    for f in p.all_funcs():
+        parents = {}
+        for a in ast.walk(f.node):
+            for c in ast.iter_child_nodes(a):
+                parents[id(c)] = a
+        for st in ast.walk(f.node):
+            if not isinstance(st, ast.Assign):
+                continue
+            for t in st.targets:
+                if not (isinstance(t, ast.Attribute) and
+                        t.attr == 'can_simulate'):
+                    continue
+                n += 1
+                v = st.value
+                if isinstance(v, ast.Constant) and v.value is True:
+                    ctx.ok(f, 'can_simulate = True', st)
+                    continue
+                if isinstance(v, ast.Attribute) and v.attr == 'can_simulate':
+                    ctx.ok(f, 'can_simulate propagated from %s' %
+                           unparse(v.value), st)
+                    continue
+                why = None
+                if isinstance(v, ast.Constant) and v.value is False:
+                    if f.name == '__init__':
+                        why = 'constructor default'
+                    cur = st
+                    while why is None and id(cur) in parents:
+                        cur = parents[id(cur)]
+                        if isinstance(cur, ast.ExceptHandler) and \
+                                cur.type is not None and \
+                                'CannotSimulate' in unparse(cur.type):
+                            why = 'CannotSimulate handler'
+                        elif isinstance(cur, ast.If) and \
+                                'can_simulate' in unparse(cur.test) and \
+                                st in list(ast.walk(cur))[0:0] + [
+                                    x for b in cur.body for x in ast.walk(b)]:
+                            why = 'propagation under %s' % unparse(cur.test)
+                if why:
+                    ctx.ok(f, 'can_simulate = False: %s' % why, st)
+                else:
+                    ctx.finding(f, st, '%s sets can_simulate to %s outside a '
+                                'CannotSimulate handler: the simulation gate '
+                                '(_check_simulation) returns early for the '
+                                'whole run and an evolution that does not '
+                                'reach the current models is executed' % (
+                                    f.qualname, unparse(v)),
+                                key='can-simulate-off')
+    ctx.floor('assignments to can_simulate', n, 6)
+
+
 def run(ctx):
+    r9_cannot_simulate_only_for_raw_sql(ctx)
     r8_optimiser_keeps_invalid_mutations(ctx)
     handle, gate_nodes = r1_gate_dominates(ctx)
     r2_gate_fails_closed(ctx)
